@@ -665,7 +665,11 @@ def lean_lemmas(I):
     with open(path, "w") as fh:
         fh.write(src)
     try:
-        p = subprocess.run([LEAN, path], capture_output=True, text=True, timeout=600, cwd=d)
+        def _unlimited():
+            # Lean reserves address space per thread: lift the worker's soft address-space ceiling (pyvc/runner.py) for this sub-process
+            import resource
+            resource.setrlimit(resource.RLIMIT_AS, (resource.getrlimit(resource.RLIMIT_AS)[1],) * 2)
+        p = subprocess.run([LEAN, path], capture_output=True, text=True, timeout=600, cwd=d, preexec_fn=_unlimited)
     except (OSError, subprocess.TimeoutExpired) as ex:
         raise EngineError(f"Lean could not be run on the lemma file: {ex}")
     finally:
